@@ -150,6 +150,18 @@ def run_family(ctx, scns, D, level="model_checking", cap_per_worker=None, kinds=
         "samples": samples,
         "explanation": "states = scheduler steps executed on the real code (every step is a visited program state of the threaded system); transitions = scheduling decisions with >1 candidate; every execution IS the implementation (no separate model), so traces_validated_against_impl = executions",
     }
+    # replay determinism: the same recorded schedule executed twice must give identical
+    # observation logs, decision traces and summaries (a divergence is a harness error, never a verdict)
+    ndet = 0
+    for scn in scns[:: max(1, len(scns) // 5)]:
+        a = explore.execute(scn, (), want_obs=True)
+        for prefix in ((), tuple(c for _, c, _ in a["trace"][: len(a["trace"]) // 2]) + (1,) if any(n > 1 for n, _, _ in a["trace"][len(a["trace"]) // 2 : len(a["trace"]) // 2 + 1]) else ()):
+            x = explore.execute(scn, prefix, want_obs=True)
+            y = explore.execute(scn, prefix, want_obs=True)
+            if (x["obs"], x["trace"], x["summary"]) != (y["obs"], y["trace"], y["summary"]):
+                raise sim.ReplayDivergence(f"{scn.name}: two executions of the same schedule differ")
+            ndet += 1
+    cov["replay_determinism_schedules_checked_twice"] = ndet
     if extra_cov:
         cov.update(extra_cov)
     return core.Result(
